@@ -27,7 +27,7 @@ ALL_KINDS = ["io", "timer", "tcp", "udp", "lst", "acc", "pkt", "peer", "file", "
 BUGS = dict(
     BUG_ConnectLeak="FALSE", BUG_PacketBindLeak="FALSE", BUG_PeerLeak="FALSE", BUG_WsLeak="FALSE",
     BUG_ListenerNoGuard="FALSE", BUG_PacketNoGuard="FALSE", BUG_TimerRevive="FALSE",
-    BUG_AdapterRawClose="FALSE", BUG_EarlyDeregister="FALSE", BUG_WsResetLeak="FALSE",
+    BUG_AdapterRawClose="FALSE", BUG_EarlyDeregister="FALSE", BUG_WsResetLeak="FALSE", BUG_ForeignDeregister="FALSE",
     BUG_SocketNonblockLeak="TRUE", BUG_AcceptLeak="TRUE")
 
 BEFORE_REPAIR = {k: "TRUE" for k in BUGS}
@@ -52,8 +52,8 @@ def configs(tier, seed=1):
                              WithUninj="FALSE", WithGc="FALSE", WithRehs="FALSE", TruncK="{1}"), 4))
     cs.append(("gc", dict(MaxObj=1, MaxOps=6 if q else 8, MaxClose=1, MaxPlug=0, Kinds=kinds(ALL_KINDS), WithFail="FALSE",
                           WithUninj="FALSE", WithGc="TRUE", WithRehs="FALSE", TruncK="{1}"), 2))
-    cs.append(("gc2", dict(MaxObj=2, MaxOps=5 if q else 6, MaxClose=2, MaxPlug=0,
-                           Kinds=kinds(["tcp", "lst", "adp"] if q else ["tcp", "acc", "lst", "pkt", "adp", "timer"]),
+    cs.append(("gc2", dict(MaxObj=2, MaxOps=6, MaxClose=2, MaxPlug=0,
+                           Kinds=kinds(["tcp", "adp"] if q else ["tcp", "acc", "lst", "pkt", "adp", "timer"]),
                            WithFail="FALSE", WithUninj="FALSE", WithGc="TRUE", WithRehs="FALSE", TruncK="{1}"), 4))
     if not q:
         cs.append(("close3", dict(MaxObj=3, MaxOps=6, MaxClose=2, MaxPlug=1,
@@ -155,16 +155,24 @@ def run(ck):
         found = sorted({line.split('"')[3] for line in r.lines('<<"MODELBAD"')})
         ck._uninj = found
         # the design before the repairs: the model must show each defect (mutation evidence for the model)
-        consts2 = dict(MaxObj=2, MaxOps=4 if ck.tier == "quick" else 5, MaxClose=2, MaxPlug=0, Kinds=kinds(["timer", "tcp", "udp", "lst", "pkt", "peer", "adp", "ws"]),
-                       WithFail="TRUE", WithUninj="FALSE", WithGc="TRUE", WithRehs="TRUE", TruncK="{1}")
-        consts2.update(BEFORE_REPAIR)
-        c2 = vlib.cfg_with(sw, "FdTableImpl_mc.cfg", consts2, outname="gen_before.cfg", drop=["ACTION_CONSTRAINT"],
-                           add=["ACTION_CONSTRAINT EmitBad"])
-        r2 = vlib.tlc(sw, "FdTableImpl", c2, workers=4, timeout=900)
-        if not r2.ok:
-            raise vlib.Inconclusive("FdTableImpl before-repair: %s\n%s" % (r2.violated or r2.error, r2.tail()))
-        ck.add_tlc("FdTableImpl with every BUG_* = TRUE (design before the repairs)", r2, consts2)
-        ck.cov["model_rules_reached_before_repair"] = sorted({line.split('"')[3] for line in r2.lines('<<"MODELBAD"')})
+        reached = set()
+        for idx, (nm, consts2) in enumerate((
+                ("one object: failure points, second handshake, in-flight operations",
+                 dict(MaxObj=1, MaxOps=5, MaxClose=2, MaxPlug=0, Kinds=kinds(ALL_KINDS), WithFail="TRUE", WithUninj="FALSE",
+                      WithGc="TRUE", WithRehs="TRUE", TruncK="{1}")),
+                ("two objects: repeated closing calls, stale deregistration",
+                 dict(MaxObj=2, MaxOps=6 if ck.tier != "quick" else 5, MaxClose=2, MaxPlug=1, Kinds=kinds(["timer", "lst", "pkt", "adp", "ws"]),
+                      WithFail="FALSE", WithUninj="FALSE", WithGc=("TRUE" if ck.tier != "quick" else "FALSE"), WithRehs="FALSE", TruncK="{1}")))):
+            consts2 = dict(consts2)
+            consts2.update(BEFORE_REPAIR)
+            c2 = vlib.cfg_with(sw, "FdTableImpl_mc.cfg", consts2, outname="gen_before_%d.cfg" % idx, drop=["ACTION_CONSTRAINT"],
+                               add=["ACTION_CONSTRAINT EmitBad"])
+            r2 = vlib.tlc(sw, "FdTableImpl", c2, workers=2, timeout=900)
+            if not r2.ok:
+                raise vlib.Inconclusive("FdTableImpl before-repair: %s\n%s" % (r2.violated or r2.error, r2.tail()))
+            ck.add_tlc("FdTableImpl with every BUG_* = TRUE (design before the repairs), " + nm, r2, consts2)
+            reached |= {line.split('"')[3] for line in r2.lines('<<"MODELBAD"')}
+        ck.cov["model_rules_reached_before_repair"] = sorted(reached)
 
     cs = configs(ck.tier, ck.seed)
     with ThreadPoolExecutor(max_workers=4) as ex:
